@@ -15,7 +15,7 @@ def main():
     else:
         rp = json.load(open(sys.argv[1]))
         case = rp["case"]
-        prog = case["prog"]
+        prog = case.get("prog", "asl")
         sc = scenario_from_json(case["scenario"])
         print("class:", rp["class"], "| origin:", case.get("origin"))
     print("prog:", prog, "argv:", sc["argv"])
